@@ -13,12 +13,14 @@ From AK Require Import Base.Prelude Bytes.Text Bytes.FabHeader Bytes.BinFile
   Reader.Select Reader.BoxRead Reader.Level Plotfile.TextHeader Taste.Taste Writers.Colander.
 From AK Require Export Bytes.Word.
 
-(* a min/max value is printed by str(np.float64); the model prints the bit
-   pattern ("w:" + 16 hex digits), compared by value in the correspondence *)
-Definition hex_digit (n : Z) : ascii :=
-  if n <? 10 then ascii_of_nat (Z.to_nat (48 + n)) else ascii_of_nat (Z.to_nat (87 + n)).
-Definition hex_byte (c : ascii) : bytes := [hex_digit (code c / 16); hex_digit (code c mod 16)].
-Definition word_token (w : bytes) : token := bs "w:" ++ concat (map hex_byte (rev w)).
+(* a min/max value is printed by str(np.float64); the model prints a stand-in for
+   the bit pattern, compared by value in the correspondence *)
+Definition dec_digit (n : Z) : ascii := ascii_of_nat (Z.to_nat (48 + n)).
+Definition dec3 (c : ascii) : bytes := [dec_digit (code c / 100); dec_digit (code c / 10 mod 10); dec_digit (code c mod 10)].
+(* the stand-in stays inside the syntax of float literals (it is accepted wherever a printed float is: float() reads
+   it as 0.0) and cannot be mistaken for a printed value: "0", the bytes of the word, most significant first, three
+   decimal digits each, and the exponent "e-99999" *)
+Definition word_token (w : bytes) : token := bs "0" ++ concat (map dec3 (rev w)) ++ bs "e-99999".
 
 (* ---- chefs_knife_user_pfile: sequential scan of one binary file ---- *)
 Section Knife.
